@@ -10,20 +10,9 @@ Python `str` and a split of its UTF-8 bytes on 0x2F agree level by level
 Child dictionaries are association lists in insertion order (Python `dict`).
 -/
 import Paho.Gen.Matcher
+import Paho.Model.Split
 
 namespace Paho
-
-abbrev Level := List UInt8
-
-/-- `bytes.split(sep)` / `str.split(sep)` with a one-element separator:
-always returns at least one level. -/
-def splitOn (sep : UInt8) : List UInt8 → List Level
-  | [] => [[]]
-  | c :: cs =>
-    if c = sep then [] :: splitOn sep cs
-    else match splitOn sep cs with
-      | [] => [[c]]          -- unreachable, splitOn is never empty
-      | l :: ls => (c :: l) :: ls
 
 def splitTopic (s : List UInt8) : List Level := splitOn Gen.chSlash s
 
